@@ -75,6 +75,13 @@ int main(int argc, char** argv)
 				for (int q = 0; q < n; q++) if (a[q].v != q || b[q].v != q || c[q].v != q) { printf("REPRODUCED copy / assignment contents\n"); return 1; } Array<Counted> d = a.clone(); if (Counted::live != 2 * n) { printf("REPRODUCED clone: %d alive, want %d\n", Counted::live, 2 * n); return 1; } }
 			  if (Counted::live != 0) { printf("REPRODUCED %d elements alive after all handles are gone\n", Counted::live); return 1; } }
 		}
+		// clone() / dup() give independent arrays also when there is nothing to copy; growth through reserve / resize / append(array) keeps the life cycle balanced
+		{ Array<int> e; Array<int> c = e.clone(); c << 1 << 2; if (e.length() != 0) { printf("REPRODUCED clone of an empty array shares its storage: the source has %d elements after appending to the clone\n", e.length()); return 1; }
+		  Array<String> s; s << String("x"); s.clear(); Array<String> c2 = s.clone(); s << String("y"); if (c2.length() != 0) { printf("REPRODUCED clone of a cleared array shares its storage\n"); return 1; }
+		  Array<int> sh; Array<int> h2 = sh; h2.dup(); h2 << 5; if (sh.length() != 0) { printf("REPRODUCED dup() of a shared empty array does not detach it\n"); return 1; } }
+		for (int n = 1; n <= 40; n += 3) { Counted::live = Counted::ctor = Counted::dtor = 0; { Array<Counted> a; for (int q = 0; q < n; q++) a << Counted(q); a.reserve(4 * n + 7); a.resize(2 * n); Array<Counted> b; b << Counted(1); b.append(a);
+			if (Counted::live != 2 * n + 1 + 2 * n) { printf("REPRODUCED after reserve / resize / append(array) of %d elements %d are alive, the arrays hold %d\n", n, Counted::live, 4 * n + 1); return 1; } }
+			if (Counted::live != 0 || Counted::ctor != Counted::dtor) { printf("REPRODUCED growth through reserve: %d elements constructed but %d destroyed\n", Counted::ctor, Counted::dtor); return 1; } }
 		printf("OK\n"); return 0;
 	}
 	return 2;
